@@ -54,6 +54,61 @@ def case_of(cid, lines, rnd):
     return {"id": cid, "steps": st, "services": True}
 
 
+RAW_TCP = {
+    "bad_utf8_line": b"\xff\xfe\xfd\n", "bad_utf8_in_cmd": b"set k1 \xc3\n", "bad_utf8_then_cmd": b"\xff\nget k1\n",
+    "nul_line": b"\0\0\0\n", "nul_in_cmd": b"set k\0 1\n", "crlf": b"\r\n", "cr_cmd": b"get k1\r\n",
+    "spaces": b"     \n", "no_newline": b"get k1", "split_line": b"set k1 ", "two_lines": b"get k1\nget big\n",
+    "long_no_newline": b"x" * 70000, "long_line": b"set k1 " + b"y" * 70000 + b"\n", "high_bytes": bytes(range(128, 256)) + b"\n",
+    "truncated_4byte": b"get \xf0\x9f\x98\n", "overlong": b"get \xc0\xaf\n", "surrogate": b"get \xed\xa0\x80\n",
+    "http_on_tcp": b"GET / HTTP/1.1\r\nHost: x\r\n\r\n",
+}
+# (opcode, fin, payload)
+RAW_WS = {
+    "binary_bad_utf8": (2, True, b"\xff\xfe\xfd"), "binary_cmd": (2, True, b"get k1"), "binary_empty": (2, True, b""),
+    "text_bad_utf8": (1, True, b"get \xff"), "text_empty": (1, True, b""), "text_nul": (1, True, b"set k\0 1"),
+    "ping": (9, True, b"hi"), "pong_unsolicited": (10, True, b"hi"), "ping_oversized": (9, True, b"p" * 200),
+    "continuation_alone": (0, True, b"get k1"), "fragment_start_only": (1, False, b"set k1 "),
+    "reserved_opcode": (3, True, b"x"), "reserved_control": (11, True, b""), "close_bad_code": (8, True, b"\x00\x01"),
+    "close_bad_utf8": (8, True, b"\x03\xe8\xff\xff"), "text_long": (1, True, b"set k1 " + b"z" * 70000),
+    "binary_long_bad": (2, True, b"\xfe" * 70000), "binary_truncated_utf8": (2, True, b"set k1 \xe6\xbc"),
+}
+
+
+def raw_cases(rnd, tier):
+    out = []
+    for transport, table in (("tcp", RAW_TCP), ("ws", RAW_WS)):
+        for name in sorted(table):
+            for authed in (False, True):
+                for drop in (False, True):
+                    st = [{"c": "a", "line": "auth admin adminpwd", "op": {"op": "setup"}},
+                          {"c": "a", "line": "create-db d tok", "op": {"op": "setup"}},
+                          {"c": "a", "line": "use-db d tok", "op": {"op": "setup"}},
+                          {"c": "a", "line": "set k1 5", "op": {"op": "setup"}},
+                          {"c": "a", "line": "set big 2147483647", "op": {"op": "setup"}},
+                          {"c": "p", "line": "use-db d tok", "op": {"op": "setup"}}]
+                    n = 0
+                    for rep in range(3):       # three connections in a row: a dying service thread shows at the latest on the next one
+                        c = "r%d" % rep
+                        if authed:
+                            st.append({"c": c, "line": "use-db d tok", "op": {"op": "setup"}})
+                        if transport == "tcp":
+                            step = {"c": c, "rawhex": table[name].hex(), "op": {"op": "raw", "abs": [name]}}
+                        else:
+                            op, fin, payload = table[name]
+                            step = {"c": c, "rawhex": payload.hex(), "opcode": op, "fin": fin, "op": {"op": "raw", "abs": [name]}}
+                        if drop:
+                            step["drop"] = True
+                        st.append(step)
+                        n += 1
+                        st.append({"c": "p", "line": "set probe q%d" % n, "op": {"op": "probe-set", "v": "q%d" % n}})
+                        st.append({"c": "p", "line": "get probe", "op": {"op": "probe-get"}})
+                        # a new connection is still accepted and served
+                        st.append({"c": "f%d" % rep, "line": "use-db d tok", "op": {"op": "setup"}})
+                    out.append({"id": "raw_%s_%s_%d%d" % (transport, name, authed, drop), "steps": st,
+                                "services": True, "transport": transport})
+    return out
+
+
 def normalize(raw_files, out_path):
     n = runs = 0
     with open(out_path, "w") as g:
@@ -134,7 +189,18 @@ def run(tier, seed):
     pool = [c for c in cases if tcp_ok(c)]
     net = [dict(c, id="tcp_" + c["id"], transport="tcp") for c in rnd.sample(pool, min(len(pool), 300 if tier == "quick" else 3000))]
     cases += net
-    by_id = {c["id"]: {"id": c["id"], "lines": [s["line"][:300] for s in c["steps"]]} for c in cases}
+    # the same through the real WebSocket server (one text frame per line; `;` splits a frame into commands)
+    def ws_ok(c):
+        return tcp_ok(c) and all(";" not in s.get("line", "") for s in c["steps"])
+    pool = [c for c in cases if not c["id"].startswith("tcp_") and ws_ok(c)]
+    wsn = [dict(c, id="ws_" + c["id"], transport="ws") for c in rnd.sample(pool, min(len(pool), 120 if tier == "quick" else 1500))]
+    cases += wsn
+    # bytes that are not command lines: invalid UTF-8, NULs, unterminated / split lines over TCP; binary, fragmented,
+    # control and reserved frames over WebSocket; each from a fresh and from an authenticated connection, each
+    # followed by the probe from another connection of the same transport
+    rawc = raw_cases(rnd, tier)
+    cases += rawc
+    by_id = {c["id"]: {"id": c["id"], "lines": [s.get("line", s.get("rawhex", ""))[:300] for s in c["steps"]]} for c in cases}
     raws = common.run_cases_parallel("seq", cases, wd, procs=14)
     norm_path = os.path.join(wd, "norm.ndjson")
     normalize(raws, norm_path)
@@ -149,13 +215,16 @@ def run(tier, seed):
                 "from an unauthenticated, a database-token and an administrator session, each followed "
                 "by a probe set/get from another client; plus seeded sequences of 1-4 lines with up to "
                 "5 arguments and random byte strings. Distinct = distinct concrete lines.",
-        "samples": [c["steps"][7]["line"][:120] for c in cases[::max(1, len(cases) // 12)]],
-        "states": distinct, "transitions": gen, "cases_over_tcp": len(net),
+        "samples": [c["steps"][7].get("line", c["steps"][7].get("rawhex", ""))[:120] for c in cases[::max(1, len(cases) // 12)]],
+        "states": distinct, "transitions": gen, "cases_over_tcp": len(net), "cases_over_websocket": len(wsn),
+        "raw_byte_cases": len(rawc), "raw_byte_classes": {"tcp": sorted(RAW_TCP), "ws": sorted(RAW_WS)},
         "traces_validated_against_impl": outv["runs"], "events_validated": outv["events"],
         "exhaustive": False,
     })
     res.assumptions = ["lines go through process_request with catch_unwind (a panic = the handler "
                        "thread of a real transport dying); lock poisoning is read off every RwLock of "
                        "the node after each line", "dev profile: arithmetic overflow panics",
-                       "not covered: memory exhaustion, slow clients, WebSocket framing"]
+                       "bytes that are not command lines (invalid UTF-8, NULs, unterminated lines; binary / fragmented / control / "
+                       "reserved WebSocket frames) are not required to be answered, only to leave the node serving",
+                       "not covered: memory exhaustion, slow clients, HTTP framing"]
     return res, known
